@@ -31,5 +31,16 @@ META = {
         "integer contracts of BigInt::multiply (exact product) and BigInt::divide_std_dword<|x|> (a = q d + rem) are ASSUMED in the decomposition units (not yet enforced by a BV unit)",
         "loop-cut representative index: the digit loops are checked at one representative position i; every other digit cell is poisoned, so any other access would be reported",
         "termination of rejection / retry loops is not verified"]),
+    "C15": dict(level="proof", assumptions=[
+        "TRUSTED STUBS (ghost recorders) stand in for Encoding::encode/decode, Affine::from_projective, Projective::from_affine, Fq12::read/write_big_endian and pairing in the marshal/unmarshal units: they record (offset, length, source tag) and touch the first and last byte of their region; what the encoders themselves do is C09 / C04",
+        "round trip = (this check: unmarshal reads component k from exactly the region where marshal wrote component k, regions tile the buffer, flag byte and big-endian slot index exact) + (C09: decode(encode(g)) = g) + (C05: from_affine(from_projective(P)) ~ P)",
+        "slot loops are unrolled for l in {0,1,2}: BOUNDED in the slot count (reported as bounded obligations); the length functions are proved for every buffer length n in [1, 2^32] and every first byte",
+        "alignment obligations are relative to a buffer base that is itself suitably aligned (what malloc returns)",
+        "lang/go/*/marshal.go (the allocating Go callers) are not covered: no Go verifier in this toolchain"]),
+    "C17": dict(level="proof", assumptions=[
+        "same stubs and bounds as C15; memory-safety obligations are CBMC's own instrumentation (--bounds-check --pointer-check --pointer-overflow-check --div-by-zero-check --undefined-shift-check --signed-overflow-check) on the extracted C, plus out-of-bounds / uninitialised-read / null-subscript findings of the symbolic executor on the scheme API bodies",
+        "(a) length functions: for every n and first byte, either -1 or n = fixed(first byte) + l*slot;  (b) unmarshal on a buffer of exactly that n and a slot array of exactly l entries: every access in bounds;  (a)+(b) compose to 'any buffer of any length >= 1'",
+        "C++-only UB classes (strict aliasing, union active member, object lifetime) are not modelled; assembly routines are outside this check",
+        "lang/go/*/marshal.go is not covered"]),
     "C16": dict(level="proof", assumptions=GROUP_ASSUME + ["Encoding::encode and Fq12::write_big_endian are injective byte encodings of the group element (C09, C04)"]),
 }
